@@ -826,6 +826,19 @@ def space_member(I: Interp, sp, x: SV):
             parts.append(I.dict_has(d, kv))
             parts.append(space_member(I, sub, I.dict_get(d, kv)))
         return z3.And(*parts)
+    if sp.kind == "family":
+        r = smt.rid(x.t)
+        d = SV(x.t, T.DICT())
+        I.assume_dict_wf(d)
+        iv, key, sub = sp.items["iv"], sp.items["key"], sp.items["sub"]
+        body = z3.And(I.dict_has(d, SV(key, T.ANY)), space_member(I, sub, I.dict_get(d, SV(key, T.ANY))))
+        K = st.cfg.get("ground")
+        if K:
+            st.assume(sp.n <= K)
+            allq = z3.And(*[z3.Implies(j < sp.n, z3.substitute(body, (iv, z3.IntVal(j)))) for j in range(K)])
+        else:
+            allq = z3.ForAll([iv], z3.Implies(z3.And(iv >= 0, iv < sp.n), body))
+        return z3.And(smt.is_ref(x.t), z3.Select(st.arr("cls"), r) == DICT_CID, z3.Select(st.arr("dsz"), r) == sp.n, allq)
     raise Refuse(f"member() of a {sp.kind} space")
 
 
